@@ -341,7 +341,7 @@ func TestC24(t *testing.T) {
 			}
 		case fam < 8:
 			c.Family = "map"
-			c.Map = storgen.GenMapHistory(src, storgen.MapGenConfig{MaxExecs: 12, MaxOps: 5, Injections: true})
+			c.Map = storgen.GenMapHistory(src, storgen.MapGenConfig{MaxExecs: 12, MaxOps: 5, Injections: true, AvoidNilBorrowAnyResource: true})
 		default:
 			c.Family = "cont"
 			c.Cont = storgen.GenContHistory(src, storgen.ContGenConfig{MaxExecs: 8, MaxOps: 6, Injections: true})
